@@ -40,7 +40,7 @@ def Q(who, pref, lo=NONE, hi=NONE):
 SCOPES = {
     "quick": dict(
         hist=dict(
-            NA=2, G=3, Prio=[1, 2], MaxAge=1, MaxClock=2, MaxDepth=6, XG=0,
+            NA=2, G=3, Prio=[1, 2], MaxAge=1, MaxClock=2, MaxDepth=6, XG=0, MaxBack=1,
             SysAlpha=[S(-3, 3), S(-3, 1), S(-1, 3), S(-2, 2)],
             RegAlpha=[Q(1, 2), Q(1, -1), Q(1, 3), Q(2, NONE, -1, 2)],
             OpAlpha=[Q(1, -1), Q(1, 2), Q(2, NONE, 0, 1)],
@@ -48,12 +48,12 @@ SCOPES = {
         hist_limit=10000,
         every_second_one_in=4,  # in 1 of 4 executions the 1 s drop timer fires every second of a tick, else once per tick
         legacy_depth=5,  # design-level run of the model BEFORE the repair (keeps the named deviation exercised)
-        sim=dict(NA=2, G=3, Prio=[1, 2], MaxAge=1, MaxClock=4, MaxDepth=10, XG=1, SysAlpha=[], RegAlpha=[], OpAlpha=[]),
+        sim=dict(NA=2, G=3, Prio=[1, 2], MaxAge=1, MaxClock=4, MaxDepth=10, XG=1, MaxBack=2, SysAlpha=[], RegAlpha=[], OpAlpha=[]),
         sim_num=2000,
     ),
     "thorough": dict(
         hist=dict(
-            NA=2, G=3, Prio=[1, 2], MaxAge=1, MaxClock=3, MaxDepth=6, XG=1,
+            NA=2, G=3, Prio=[1, 2], MaxAge=1, MaxClock=3, MaxDepth=6, XG=1, MaxBack=2,
             SysAlpha=[S(-3, 3), S(-3, 1), S(-1, 3), S(-2, 2), S(-3, 3, -1, 1), S(0, 0, 0, 0, False)],
             RegAlpha=[Q(1, 2), Q(1, -1), Q(1, 3), Q(1, 0), Q(2, NONE, -1, 2), Q(2, 1, 0, 3)],
             OpAlpha=[Q(1, -1), Q(1, 2), Q(1, -3), Q(2, NONE, 0, 1)],
@@ -62,7 +62,7 @@ SCOPES = {
         every_second_one_in=1,
         legacy_depth=6,
         deep_depth=8,  # design-level invariants only (no emission / replay)
-        sim=dict(NA=3, G=3, Prio=[1, 2, 4], MaxAge=1, MaxClock=6, MaxDepth=14, XG=2, SysAlpha=[], RegAlpha=[], OpAlpha=[]),
+        sim=dict(NA=3, G=3, Prio=[1, 2, 4], MaxAge=1, MaxClock=6, MaxDepth=14, XG=2, MaxBack=3, SysAlpha=[], RegAlpha=[], OpAlpha=[]),
         sim_num=60000,
     ),
 }
@@ -147,6 +147,8 @@ class Exec:
         # latest report per subscriber (cumulative over the execution)
         self.latest: dict[tuple[bool, int], object] = {}
         self.last_request = None
+        self.all_requests: list = []  # every Request object the actor sent, oldest first
+        self.answered = dict(older=False, ans=NONE, lat=NONE)
 
     # -- plumbing ----------------------------------------------------------
     def _pump(self, rx, sink: list) -> None:
@@ -207,10 +209,16 @@ class Exec:
         )
         self._inject(self._prop_s.send(p))
 
-    def result(self, kind: str) -> None:
+    def result(self, kind: str, back: int = 0) -> None:
+        """A result for the request sent `back` requests before the latest (the very Request object)."""
         pd = self.pd
-        power = self.last_request.power if self.last_request is not None else self.Power.zero()
-        req = pd.Request(power=power, component_ids=IDS)
+        if self.all_requests:
+            idx = max(0, len(self.all_requests) - 1 - back)
+            req = self.all_requests[idx]
+            self.answered = dict(older=idx < len(self.all_requests) - 1, ans=self.iv(req.power), lat=self.iv(self.all_requests[-1].power))
+        else:
+            req = pd.Request(power=self.Power.zero(), component_ids=IDS)
+        power = req.power
         zero = self.Power.zero()
         if kind == "success":
             res = pd.Success(request=req, succeeded_power=power, succeeded_components=set(IDS), excess_power=zero)
@@ -240,7 +248,9 @@ class Exec:
                 raise RuntimeError("request for foreign components")
         if self.requests:
             self.last_request = self.requests[-1]
+        self.all_requests.extend(self.requests)
         self.requests.clear()
+        answered, self.answered = self.answered, dict(older=False, ans=NONE, lat=NONE)
         n = {False: 0, True: 0}
         newest: dict[bool, object] = {}
         for (op, k), sink in self.reports.items():
@@ -264,7 +274,7 @@ class Exec:
                 out.append([NONE, NONE] if b is None else [self.iv(b.lower), self.iv(b.upper)])
             return out
 
-        return dict(req=req, nr=n[False], no=n[True], rr=tgt(False), ro=tgt(True), rb=bnds(False), ob=bnds(True))
+        return dict(req=req, nr=n[False], no=n[True], rr=tgt(False), ro=tgt(True), rb=bnds(False), ob=bnds(True), **answered)
 
 
 def execute(case: dict, cfg: dict) -> dict:
@@ -281,7 +291,7 @@ def execute(case: dict, cfg: dict) -> dict:
             elif a == "op":
                 ex.propose(True, s)
             elif a == "result":
-                ex.result(s["k"])
+                ex.result(s["k"], s.get("back", 0))
             elif a == "tick":
                 ex.tick()
             else:
@@ -396,11 +406,17 @@ def _stage(rep: Report, name: str, consts: dict, work: Path, mode: str, limit, s
         raise RuntimeError(f"vacuity: no request while both groups had a target in {name}")
     if not ex["requests_after"]["bounds"]:
         raise RuntimeError(f"vacuity: no request after a bounds update in {name}")
+    if not obs.get("OBS.LatePartialFailure"):
+        raise RuntimeError(f"vacuity: no partial failure for a request older than the latest in {name}")
+    if not obs.get("OBS.LatePartialFailureOtherPower"):
+        raise RuntimeError(f"vacuity: no late partial failure for a request whose power differs from the latest in {name}")
     if FIXED and not obs.get("OBS.UnchangedGroupSubstituted"):
         raise RuntimeError(f"vacuity: no bounds update in {name} on which exactly one group's target changed")
     rep.extra.setdefault("stages", []).append(
         dict(stage=name, cases_emitted=total, cases_replayed=len(cases), traces_validated=done, val_states=st["states"],
-             transitions_per_action=acts, exercised=ex, deviation_fired=dev_fired, disagreements=dis, observations=obs)
+             transitions_per_action=acts, exercised=ex,
+             partial_failure_for_request_older_than_latest=obs.get("OBS.LatePartialFailure", 0),
+             of_which_with_another_power=obs.get("OBS.LatePartialFailureOtherPower", 0), deviation_fired=dev_fired, disagreements=dis, observations=obs)
     )
     d_all = rep.extra.setdefault("disagreements", {})
     for k, n in dis.items():
@@ -413,7 +429,7 @@ def _stage(rep: Report, name: str, consts: dict, work: Path, mode: str, limit, s
 
 
 def _trace_consts(consts: dict) -> dict:
-    return dict({k: consts[k] for k in ("NA", "G", "Prio", "MaxAge", "XG", "Fixed")}, MaxClock=999, MaxDepth=0,
+    return dict({k: consts[k] for k in ("NA", "G", "Prio", "MaxAge", "XG", "MaxBack", "Fixed")}, MaxClock=999, MaxDepth=0,
                 SysAlpha=[], RegAlpha=[], OpAlpha=[], Mode="trace")
 
 
@@ -449,6 +465,7 @@ def run(prop: str, tier: str) -> int:
         "'currently reported' = target_power of the latest _Report each actor group received by the time the event is handled "
         "(reports follow the request inside the same handler); a group without target (None) counts as 0",
         "regular and operating-point actors use distinct priorities (report channels are named by priority only)",
+        "a distribution result carries the very Request object the actor sent: the latest one or one of the MaxBack before it (late results)",
         "one tick = 40 s of virtual time, proposals expire after 60 s; the actor's own 1 s drop timer does the expiry "
         "(quick: in 3 of 4 executions the clock jumps a whole tick and the timer fires once, late)",
     ]
